@@ -903,6 +903,24 @@ fn finish(g: &mut G, profile_name: &str, seed: u64, mut actors: Vec<ActorSpec>, 
                 }
             }
         }
+        if g.r.chance(50) {
+            // one more client: its ask is queued behind the gated handler and given up (timeout); it keeps only a weak handle
+            // and upgrades it much later, when the queued envelopes are all that is left of the actor's strong references
+            let a = g.r.below(n as u64) as usize;
+            let uid = g.uid();
+            let kind = if g.r.chance(70) { SendKind::AskTo(2) } else { SendKind::TellTo(2) };
+            let ops = vec![
+                ClientOp { pre: Pre::Sleep(2), op: Op::Send { slot: 0, kind, mty: MTy::U, body: Body::plain(uid) } },
+                ClientOp { pre: Pre::None, op: Op::Downgrade { from: 0, to: 1 } },
+                ClientOp { pre: Pre::None, op: Op::DropSlot { slot: 0 } },
+                ClientOp { pre: Pre::Sleep(2 * g.r.range(12, 16)), op: Op::Upgrade { from: 1, to: 2 } },
+                ClientOp { pre: Pre::None, op: Op::ProbeAlive { slot: 1 } },
+                ClientOp { pre: Pre::None, op: Op::DropSlot { slot: 2 } },
+            ];
+            let mut init = vec![None; clients.first().map(|c| c.init.len()).unwrap_or(4).max(3)];
+            init[0] = Some(a);
+            clients.push(ClientSpec { init, ops, drop_at_end: true });
+        }
     }
     if profile_name == "refs" && g.r.chance(25) {
         // "closer" shape: nothing is gated, everybody drops their handles early; then one task holding the last
